@@ -477,6 +477,8 @@ def history(seed, n_ops=25, profile=None):
         return dynamic_memo_history(seed)
     if profile == "direct":
         return direct_recompute_history(seed)
+    if profile == "expert":
+        return expert_history(seed)
     if isinstance(profile, str):
         profile = PROFILES[profile]
     rng = random.Random(seed)
@@ -571,6 +573,121 @@ def direct_recompute_history(seed):
             L.append(f"dropobs {rng.randrange(nobs[0])}") if f"dropobs" not in " ".join(L[-3:]) else None
         L.append("stabilise")
         L += [f"read {o}" for o in range(nobs[0]) if f"dropobs {o}" not in L]
+    return L
+
+
+def expert_history(seed):
+    """C14, scripted family: an expert node whose dependencies are added and removed from the functions of its
+    own children (the join / bind / dynamic-sum idiom), static dependencies with and without change callbacks,
+    shared and duplicate children, make_stale, observe / unobserve / re-observe, dependencies added from top
+    level after the node has run."""
+    rng = random.Random(seed)
+    L = []
+    H = [0]
+
+    def node(line):
+        L.append(line)
+        H[0] += 1
+        return H[0] - 1
+    nobs = [0]
+    obs_of = {}
+
+    def observe(h):
+        L.append(f"observe {h}")
+        obs_of[nobs[0]] = h
+        nobs[0] += 1
+        return nobs[0] - 1
+
+    ndata = rng.choice([2, 3, 4])
+    data = [node(f"var {rng.randrange(10)}") for _ in range(ndata)]
+    nsel = rng.choice([1, 1, 2, 3])
+    sels = [node(f"var {rng.randrange(4)}") for _ in range(nsel)]
+    nvars = ndata + nsel
+    cands = list(data)
+    for d in data:
+        cur = d
+        for _ in range(rng.choice([0, 0, 1, 2])):
+            cur = node(f"map {rng.choice([1, 2, 9])} [] {cur}")
+            cands.append(cur)
+    if rng.random() < 0.3:
+        cands.append(node(f"map 1 [] {rng.choice(cands)} {rng.choice(cands)}"))
+    inval_var = None
+    if rng.random() < 0.4:
+        # a candidate that can become invalid: a map over a node created (and handed out) by a bind closure;
+        # when the bind's left-hand side changes that node, and with it the map, is invalidated for good
+        a = node(f"var {rng.randrange(3)}")
+        inval_var = nvars
+        nvars += 1
+        B = node(f"bind {a} {{ [] map 1 [] o{data[0]} ; export l0.0 ; ret l0.0 }}")
+        observe(B)
+        L.append("stabilise")
+        cands.append(node("mapexport 1 0"))
+    mode = rng.choice([0, 1, 1])
+    E = node(f"expert {mode}")
+    cbdefault = 1 if mode == 0 else rng.choice([0, 1])
+    slot = [0]
+
+    def newslot():
+        slot[0] += 1
+        return slot[0] - 1
+    # static dependencies
+    for _ in range(rng.choice([0, 1, 1, 2])):
+        cb = cbdefault if rng.random() < 0.85 else 1 - cbdefault
+        L.append(f"adddep {E} {rng.choice(cands)} {newslot()} {cb}")
+    # controllers: children of E whose function rewires E
+    ctrls = []
+    for sv in sels:
+        k = rng.choice([2, 2, 3])
+        hs = [rng.choice(cands) for _ in range(k)]
+        if rng.random() < 0.3:
+            hs[1] = hs[0]                      # the same child under two selector values
+        sl = newslot()
+        effs = [f"swapdep:{E}:{sl}:{cbdefault}:" + ",".join(map(str, hs))]
+        if rng.random() < 0.25:
+            effs.append(f"makestale:{E}")
+        if rng.random() < 0.15:
+            # a second cell toggled on every run: remove what is there, add again
+            sl2 = newslot()
+            h2 = rng.choice(cands)
+            effs += [f"rmdep:{E}:{sl2}", f"adddep:{E}:{h2}:{sl2}:{cbdefault}"]
+        c = node(f"map 0 [{' '.join(effs)}] {sv}")
+        ctrls.append(c)
+        L.append(f"adddep {E} {c} {newslot()} {cbdefault}")
+    kill = None
+    if rng.random() < 0.15:
+        # a child whose function invalidates the expert node; it only becomes a dependency later on
+        kv = node(f"var {rng.randrange(3)}")
+        nvars += 1
+        kill = node(f"map 0 [invalidate:{E}] {kv}")
+    down = E
+    if rng.random() < 0.5:
+        down = node(f"map 1 [] {E}")
+    o_main = observe(down)
+    if rng.random() < 0.3:
+        observe(rng.choice(cands))
+    L.append("stabilise")
+    L += [f"read {o}" for o in range(nobs[0])]
+    live = {o: True for o in range(nobs[0])}
+    for _ in range(rng.choice([3, 4, 5, 6])):
+        r = rng.random()
+        if r < 0.12 and live.get(o_main):
+            L.append(f"dropobs {o_main}")
+            live[o_main] = False
+        elif r < 0.3 and not live.get(o_main):
+            o_main = observe(down)
+            live[o_main] = True
+        elif r < 0.5 and kill is not None:
+            L.append(f"adddep {E} {kill} {newslot()} {cbdefault}")
+            kill = None
+        elif r < 0.4:
+            # a dependency added from top level, possibly after the node has run
+            cb = cbdefault
+            L.append(f"adddep {E} {rng.choice(cands)} {newslot()} {cb}")
+        for x in range(nvars):
+            if rng.random() < (0.45 if x != inval_var else 0.3):
+                L.append(f"set {x} {rng.randrange(10) if x < ndata else rng.randrange(5)}")
+        L.append("stabilise")
+        L += [f"read {o}" for o in range(nobs[0]) if live.get(o, True)]
     return L
 
 
